@@ -194,7 +194,7 @@ func (t *tiler) scanReads(st *tileState, e ast.Node) {
 					width, okW = linForm{k: 4}, true
 				case strings.HasSuffix(name, "Uint16"):
 					width, okW = linForm{k: 2}, true
-				case name == "readNum" && len(x.Args) == 2 && i == 0:
+				case callee != nil && isWidthCodec(callee) && i == 0:
 					width, okW = t.lin(st, x.Args[1])
 				case callee != nil && t.p.IsRepoPkg(callee.Pkg()) && len(x.Args) == 1:
 					if w := t.p.bytesRead(callee, 0); w > 0 {
